@@ -168,3 +168,31 @@ package dns
 //@   safe
 //@   requires srvWF(s) && v != nil && v.DownstreamEncoder != nil && m != nil && len(m.Question) == 1
 //@   ensures srvBase(s)
+
+// ===================================================================================================
+// C11: auto-negotiation. Two contract-expressible halves: every negotiation loop terminates, and a parameter is
+// committed only on the path on which its own probe succeeded (or is the documented fallback, Base32).
+
+// The upstream codec: a case-swapping path falls back to the case-insensitive Base32; a candidate is
+// committed only when all of its test patterns came back intact; otherwise Base32.
+//@ func (dc *ClientDnsConnection) AutodetectEncodingUpstream
+//@   property C11
+//@   callsite return#1 () require dc.Serializer.Upstream.Encoder == enc.Base32Encoding                           :case_swapping_path_falls_back_to_base32
+//@   callsite return#2 (e enc.Encoder, ok bool) require ok && dc.Serializer.Upstream.Encoder == e                    :commits_only_the_codec_whose_probes_all_passed
+//@   callsite return#3 () require dc.Serializer.Upstream.Encoder == enc.Base32Encoding                           :nothing_worked_falls_back_to_base32
+
+// The downstream fragment size search: each probe round must make progress
+//@ go func boolInt(b bool) int { if b { return 1 }; return 0 }
+//@ func (dc *ClientDnsConnection) AutodetectFragmentSize
+//@   property C11
+//@   terminates
+//@   loop 1 vars fragmentRange uint32, max uint32, proposed uint32
+//@   loop 1 decreases int(fragmentRange) + boolInt(max < 300)
+//@   loop 2 vars i int
+//@   loop 2 decreases 3 - i
+
+//@ func (dc *ClientDnsConnection) CheckFragmentSizeResponse
+//@   property C11
+//@   safe
+//@   terminates
+//@   pure
